@@ -429,7 +429,7 @@ func init() {
 	register(&CheckDef{
 		ID:    "C03",
 		Title: "Crash recovery exposes a prefix of the acknowledged history",
-		Reach: []string{"done", "crashed-mid-workload", "power-loss", "unsynced-acked", "batch", "torn-tail", "second-crash-after-recovery"},
+		Reach: []string{"done", "crashed-mid-workload", "power-loss", "unsynced-acked", "batch", "torn-tail", "second-crash-after-recovery", "recovered-with-other-backend"},
 		Jobs: func(tier string) []JobSpec {
 			var js []JobSpec
 			add := func(name string, params map[string]int64) {
@@ -446,6 +446,9 @@ func init() {
 				// power loss under mmap (the unsynced tail of a mapped file is cut), and a SECOND crash after the
 				// recovered database has written on
 				add("mmap-powerloss-k2", merge(base, p("k", 2, "ops", opPut|opDelete|opSync, "io", 1, "after", 1, "dfs_lo", 60, "dfs_hi", 100)))
+				// crash under one back-end, recovery (and further life) under the other
+				add("std-crash-recover-mmap-k2", merge(base, p("k", 2, "ops", opPut|opDelete|opSync, "io", 0, "r_io", 2, "after", 1, "dfs_lo", 60, "dfs_hi", 100)))
+				add("mmap-crash-recover-std-k2", merge(base, p("k", 2, "ops", opPut|opDelete|opSync, "io", 1, "r_io", 1, "after", 1, "dfs_lo", 60, "dfs_hi", 100)))
 				add("mmap-powerloss-multiblock-then-crash-again", merge(base, p("k", 2, "ops", opPut|opSync, "io", 1, "vlens", 4, "vbig", 40, "vbig2", 20, "after", 1, "aftercrash", 1, "afterval", 1)))
 				add("std-powerloss-then-crash-again", merge(base, p("k", 2, "ops", opPut|opDelete, "vlens", 4, "vbig", 40, "vbig2", 20, "after", 1, "aftercrash", 1, "afterval", 1)))
 				add("mmap-process-death-k2", merge(base, p("k", 2, "ops", opPut|opDelete, "io", 1, "powerloss", 0, "after", 1, "dfs_lo", 60, "dfs_hi", 100)))
@@ -457,6 +460,8 @@ func init() {
 				add("always-k3-rot", merge(base, p("k", 3, "ops", opPut|opDelete, "sync", syncAlways, "vlens", 3, "vbig", 25, "dfs_lo", 60, "dfs_hi", 120)))
 				add("threshold-k3", merge(base, p("k", 3, "ops", opPut|opDelete|opSync, "sync", syncThreshold)))
 				add("batch-k2", merge(base, p("k", 2, "ops", opPut|opDelete|opBatch, "vlens", 1, "bsync", 1, "dfs_lo", 120, "dfs_hi", 160)))
+				add("std-crash-recover-mmap-multiblock", merge(base, p("k", 2, "ops", opPut|opDelete|opSync, "io", 0, "r_io", 2, "vlens", 3, "vbig", 40, "after", 1, "afterval", 1, "dfs_lo", 60, "dfs_hi", 100)))
+				add("mmap-crash-recover-std-multiblock", merge(base, p("k", 2, "ops", opPut|opDelete|opSync, "io", 1, "r_io", 1, "vlens", 3, "vbig", 40, "after", 1, "afterval", 1, "dfs_lo", 60, "dfs_hi", 100)))
 				add("cfgsweep-k1", merge(base, p("cfgsweep", 2, "preput", 1, "k", 1, "ops", opPut|opDelete, "vlens", 1, "after", 1, "dfs_lo", 40, "dfs_hi", 40)))
 				add("btree-k3", merge(base, p("k", 3, "ops", opPut|opDelete|opSync, "index", 1, "shards", 2, "after", 1)))
 			}
